@@ -15,6 +15,15 @@ def run(ctx):
         for i in range(ctx.pick(14, 150)):
             cc, ops = fs_drv.make_job(rng, ctx.seed * 1117 + i, nfiles=(2, 5), digits=(i == 1))
             scen.append(fs_drv.stepped(fc.env_for(env, i), drf, cc, ops, "step%d" % i, rng))
+        # one recording of many small files: the long-lived readers have read from more than sixteen distinct files before it ends
+        for i in range(ctx.pick(1, 4)):
+            cc, _ = fs_drv.make_job(rng, ctx.seed * 1117 + 500 + i, nfiles=(19, 21), mode="gapped")
+            b = cc.bound
+            ops = [["open", b[0] + cc.B]]
+            for j in range(len(b) - 2):
+                ops.append(["write", b[j] - b[0], min(2, b[j + 1] - b[j])])
+            ops.append(["close"])
+            scen.append(fs_drv.stepped(env, drf, cc, ops, "manyfiles%d" % i, rng, every=5))
     fc.account(ctx, scen, "a pool of long-lived DigitalRFReader objects created at different operations of the recording (before the "
                "channel exists, while the properties file is written, mid-file, after close) each run a pass (bounds, read of everything) "
                "between every two file-system operations of the writer; TLC requires every pass to succeed, to equal exactly the content "
